@@ -29,6 +29,15 @@ CHECKS = {
 	'C20': ('exploration', 'runtime monitor: plain-list reference model for every index expression on the three collection kinds, SignatureList mutation histories replayed against a list, content-equality matrix',
 	        'For collection lengths 0..7 and the in-memory, list-backed and on-disk kinds every integer (python and 9 numpy scalar types), every slice over the stated range, all boolean masks (n<=5), index lists/arrays in 9 dtypes, out-of-range and ill-typed indices are enumerated and compared with a plain list; seeded mutation histories with a sweep after each step; equality across 4x4 kind pairs and 9 difference classes.',
 	        'Reference model = Python list / NumPy object-array indexing.', 'DESIGN.md 3/C20'),
+	'C06': ('exploration', 'runtime monitor: absolute oracle (union of per-contig reference signatures) + metamorphic equality over file layouts; open-fd counting; ASan overlay; CLI slice',
+	        'Seeded multi-contig genomes with cross-boundary traps are written in crossed layouts (orientation, order, case, wrap width 1..inf, LF/CRLF, final newline, gzip, extension disagreeing with content, auto/explicit compression) and every computed file signature must equal the union of per-contig signatures of the reference definition; all 2^c x c! orientation/order variants for c<=4 are enumerated for some genomes.',
+	        'Trusts vf/oracles/sigdef.py and the FASTA writer in vf/oracles/fasta.py.', 'DESIGN.md 3/C06'),
+	'C13': ('exploration', 'runtime monitor with schedule control: caller-supplied executor + acknowledging progress meter force every permutation of task completion order; as_completed wrapped to record the delivered order; real thread/process pools with size skew and injected delays; failure injection at every position',
+	        'Every completion order of n<=6 files (thorough 7) is forced deterministically and the delivered order recorded; sequential, thread and process pools with 1..16 workers are driven with skewed file sizes and per-task delays and their observed completion orders recorded; an unreadable / malformed file at every position must make the call raise, and a caller-supplied executor must stay usable.',
+	        'Forcing uses only documented parameters (executor=, progress=); recording wraps a module attribute from outside.', 'DESIGN.md 3/C13'),
+	'C19': ('fault_enumeration', 'fault injection: writer child SIGKILLed immediately before/after every storage-library call (all enumerated), and at every pwrite64 via strace inject; reader outcome classified refused / loaded-equal / loaded-different',
+	        'For small and medium payloads every storage-call crash point (before and after) of both write paths, with and without compression, is enumerated, and every pwrite64 crash point through strace; multi-megabyte payloads are sampled densely at both ends in the quick tier and fully in the thorough tier; the signatures-create CLI is killed at its storage calls as well.',
+	        'Crash = process death with the OS up; torn writes and power-loss reordering are not modelled.', 'DESIGN.md 3/C19'),
 }
 
 NOT_APPLICABLE = []
